@@ -39,7 +39,7 @@ def function(ip: Interp, fn: PyConst, args, kwargs, n):
         if args:
             info['msg'] = args[-1]
         return ip.new_exc(name, args, info=info)
-    if kind == 'record' and S.RECORD_MUTABLE.get(name) and name in ip.w.registry.classes:
+    if kind == 'record' and S.RECORD_MUTABLE.get(name) and name in ip.w.registry.classes and not (ip.spec and kwargs):
         return construct_z(ip, name, args, kwargs, n)
     if kind == 'record':
         fields = S.RECORD_FIELDS[name]
@@ -69,6 +69,8 @@ def function(ip: Interp, fn: PyConst, args, kwargs, n):
         zargs = []
         for a in args:
             a = a.get() if isinstance(a, ZRec) else ip.z(a)
+            if isinstance(a, (Opaque, FuncVal)):
+                a = a.ident
             if not z3.is_expr(a):
                 ip.oos(f'argument of uninterpreted spec function {node.name}', n)
             zargs.append(a)
@@ -215,6 +217,14 @@ def function(ip: Interp, fn: PyConst, args, kwargs, n):
         if S.is_record(x):
             return PyConst('record', S.record_name(x.sort()))
         ip.oos('type() of this value', n)
+    if name in ('out_ok', 'out_frame', 'out_ret', 'out_cut', 'out_fail_frame'):
+        f, fr, w = args
+        ident = f.ident if isinstance(f, (FuncVal, Opaque)) else None
+        if ident is None:
+            ip.oos(f'{name}: first argument must be a parse function', n)
+        fr = fr.get() if isinstance(fr, ZRec) else fr
+        rs = {'out_ok': z3.BoolSort(), 'out_frame': S.RECORDS['Frame'], 'out_fail_frame': S.RECORDS['Frame'], 'out_ret': Val, 'out_cut': z3.BoolSort()}[name]
+        return ip.w.uf(name, z3.IntSort(), S.RECORDS['Frame'], z3.IntSort(), rs)(ident, fr, ip.as_int(w, n))
     if name in ('dict_with', 'dict_get', 'dict_has'):
         d = args[0]
         if isinstance(d, ZRec):
@@ -557,6 +567,11 @@ def method(ip: Interp, recv, name, t: PyConst, args, kwargs, n):
     if t.kind == 'listmethod':
         return list_method(ip, recv, name, args, n)
     if t.kind == 'opaquemethod':
+        if t.name == 'NOOP':
+            ip.w.assumptions.add(f'{recv.kind}.{name}: assumed to modify nothing visible to the parse state and not to raise')
+            return None
+        if t.name in ip.w.registry.generic:
+            return ip.call_contract(ip.w.registry.generic[t.name], None, [FuncVal(t.name, recv.ident), *args], kwargs, n)
         ip.oos(f'opaque method {name}', n)
     if t.kind == 'supermethod':
         ip.oos(f'super().{name}', n)
@@ -756,9 +771,15 @@ def list_method(ip: Interp, place, name, args, n):
         if args:
             ip.oos('pop(index)', n)
         ln = z3.Length(items)
-        ip.p.oblige('safety', ln > 0, n, 'pop from a non-empty list (IndexError)', tag='safety')
-        last = items[ln - 1]
-        set_(wrap(z3.Extract(items, 0, ln - 1)))
+        st = ip.seq_from_end(items, 1)
+        if st is not None:
+            ip.p.oblige('safety', z3.BoolVal(True), n, 'pop from a non-empty list (IndexError)', tag='safety')
+            last = st[1][0]
+            set_(wrap(st[0]))
+        else:
+            ip.p.oblige('safety', ln > 0, n, 'pop from a non-empty list (IndexError)', tag='safety')
+            last = items[ln - 1]
+            set_(wrap(z3.Extract(items, 0, ln - 1)))
         rname = S.record_name(esort)
         if rname and S.RECORD_MUTABLE.get(rname):
             return ZRec.detached(rname, last)
